@@ -3,7 +3,8 @@
 (* scenario per transition, as for the other models).                        *)
 EXTENDS Registry, Json
 
-CONSTANTS MaxOps, Mode, EmitOn      \* Mode: "calls" (Add/Remove/Build histories) or "modules" (one module tree, then Build)
+CONSTANTS MaxOps, Mode, EmitOn, AddPool   \* AddPool: the items Add may use in mode "calls" (all, or a subset for deeper histories)
+\*      \* Mode: "calls" (Add/Remove/Build histories) or "modules" (one module tree, then Build)
 
 VARIABLES rs, hist
 vars == <<rs, hist>>
@@ -52,7 +53,7 @@ Init == rs = RInit(Items) /\ hist = <<>>
 Do(e, op) == rs' = RApply(rs, e) /\ hist' = Append(hist, op)
 Room == Len(hist) < MaxOps
 
-Add == Room /\ Mode = "calls" /\ \E i \in ItemIds :
+Add == Room /\ Mode = "calls" /\ \E i \in AddPool :
           Do([ev |-> "add", item |-> i], [op |-> "add", item |-> i])
 Remove == Room /\ Mode = "calls" /\ \E t \in RmTypes :
           Do([ev |-> "remove", t |-> t], [op |-> "remove", t |-> t])
